@@ -87,6 +87,8 @@ MUTANTS = {
         ('ts2td-int', 'dashlive/mpeg/dash/representation.py', '        seconds = float(timecode) / float(self.timescale)\n', '        seconds = timecode // self.timescale\n'),
     ],
     'C06': [
+        ('vodp-duration', 'dashlive/mpeg/dash/timing.py', '            self.stream_reference.media_duration, self.stream_reference.timescale)', '            self.stream_reference.timescale, self.stream_reference.media_duration)'),
+        ('init-publish', 'dashlive/mpeg/dash/timing.py', '        self.publishTime = now.replace(microsecond=0)\n        self.stream_reference', '        self.publishTime = now\n        self.stream_reference'),
         ('seglist-end', 'dashlive/mpeg/dash/representation.py', '            end = seg.pos + seg.size - 1\n', '            end = seg.pos + seg.size\n'),
         ('seglist-skip-first', 'dashlive/mpeg/dash/representation.py', '                rv.init = sp\n                first = False\n', '                rv.init = sp\n'),
         ('vod-last', 'dashlive/mpeg/dash/representation.py', 'return (self.start_number, self.num_media_segments + self.start_number - 1)', 'return (self.start_number, self.num_media_segments + self.start_number)'),
